@@ -58,6 +58,8 @@ var policies = []polv{
 	{nps: []wm.NP{{NS: "ns1", Name: "labeled", PodSel: wm.Sel{}, Types: []string{"Ingress"}, Ingress: []wm.NPRule{{Peers: []wm.NPPeer{{NSSel: all, Pod: wm.ME("app", "Exists")}}}}}}},
 	{anps: []wm.ANP{{Name: "a", Prio: 5, Subject: wm.APeer{Namespaces: wm.ML("team", "a")}, Ingress: []wm.ARule{{Action: "Deny", Peers: []wm.APeer{{Namespaces: all}}, Ports: &[]wm.APort{{Kind: "num", Proto: "TCP", Num: 80}}}}}}},
 	{banp: &wm.ANP{Name: "default", Subject: wm.APeer{Namespaces: all}, Ingress: []wm.ARule{{Action: "Deny", Peers: []wm.APeer{{Namespaces: wm.ML("team", "a")}}}}}},
+	// selectors made only of negative expressions: an unlabeled pod satisfies them
+	{nps: []wm.NP{{NS: "ns1", Name: "negative", PodSel: wm.Sel{}, Types: []string{"Ingress"}, Ingress: []wm.NPRule{{Peers: []wm.NPPeer{{NSSel: all, Pod: wm.ME("app", "NotIn", "zz")}}, Ports: []wm.NPPort{{HasPort: true, Num: 8080}}}, {Peers: []wm.NPPeer{{NSSel: wm.ME("team", "DoesNotExist"), Pod: wm.ME("role", "DoesNotExist")}}, Ports: []wm.NPPort{{HasPort: true, Num: 80}}}}}}},
 }
 
 func base(cp []wm.CPort, p polv) *wm.World {
@@ -174,6 +176,35 @@ func GenRoute(c *fw.Ctx) *wm.World {
 	return w
 }
 
+// GenTwoNamespaces: workloads of the same kind and name in two namespaces, each behind its own Service + Ingress/Route,
+// with container ports of the same name but different numbers.
+func GenTwoNamespaces(c *fw.Ctx) *wm.World {
+	cpA := fw.Pick(c, [][]wm.CPort{{{Name: "http", Num: 8080}}, {{Name: "http", Num: 8080}, {Name: "web", Num: 9090}}, {{Name: "web", Num: 8080}}}, "container ports of ns1/w")
+	cpB := fw.Pick(c, [][]wm.CPort{{{Name: "http", Num: 9090}}, {{Name: "http", Num: 80}, {Num: 8080}}, {{Name: "http", Num: 8080}}}, "container ports of ns2/w")
+	tA := fw.Pick(c, []wm.Target{wm.TName("http"), wm.TNum(8080), {}}, "targetPort in ns1")
+	tB := fw.Pick(c, []wm.Target{wm.TName("http"), wm.TNum(9090), {}}, "targetPort in ns2")
+	kindB := fw.Pick(c, []string{"Deployment", "StatefulSet"}, "kind of ns2/w")
+	viaA := c.Choose(2, "ns1: Ingress | Route")
+	viaB := c.Choose(2, "ns2: Ingress | Route")
+	pol := fw.Pick(c, policies[:4], "policies")
+	w := &wm.World{NSs: []wm.NS{{Name: "ns1", Labels: map[string]string{"team": "a"}, HasObj: true}, {Name: "ns2", Labels: map[string]string{"team": "b"}, HasObj: true}},
+		WLs: []wm.Workload{
+			{Kind: "Deployment", NS: "ns1", Name: "w", Labels: map[string]string{"app": "a"}, Ports: cpA, Replicas: 1},
+			{Kind: kindB, NS: "ns2", Name: "w", Labels: map[string]string{"app": "a"}, Ports: cpB, Replicas: 1},
+		}, NPs: pol.nps, ANPs: pol.anps, BANP: pol.banp}
+	w.Svcs = []wm.Svc{{NS: "ns1", Name: "s", Sel: map[string]string{"app": "a"}, Ports: []wm.SvcPort{{Name: "p1", Port: 8080, Target: tA}}}, {NS: "ns2", Name: "s", Sel: map[string]string{"app": "a"}, Ports: []wm.SvcPort{{Name: "p1", Port: 8080, Target: tB}}}}
+	add := func(ns string, via int) {
+		if via == 0 {
+			w.Ings = append(w.Ings, wm.Ing{NS: ns, Name: "i", Default: &wm.Backend{Svc: "s", PortName: "p1"}})
+		} else {
+			w.Routes = append(w.Routes, wm.Route{NS: ns, Name: "r", To: []string{"s"}})
+		}
+	}
+	add("ns1", viaA)
+	add("ns2", viaB)
+	return w
+}
+
 func GenBoth(c *fw.Ctx) *wm.World {
 	// an Ingress and a Route on the same workload through different service ports: the line is the union
 	cp := fw.Pick(c, cportAlpha, "container ports of w1")
@@ -196,7 +227,14 @@ func Run(r *fw.Run) {
 	} else {
 		r.SetBudget(30 * time.Minute)
 	}
-	fw.Explore(r, "ingress", fw.Full, GenIngress, Eval)
+	fw.Explore(r, "ingress", fw.Full, func(c *fw.Ctx) *wm.World {
+		w := GenIngress(c)
+		if r.Quick() {
+			c.Stride(2)
+		}
+		return w
+	}, Eval)
+	fw.Explore(r, "same-name-two-namespaces", fw.Full, GenTwoNamespaces, Eval)
 	fw.Explore(r, "route", fw.Full, func(c *fw.Ctx) *wm.World {
 		w := GenRoute(c)
 		if r.Quick() {
